@@ -1,5 +1,5 @@
 //! C08 — every `<--` signal assignment is reported exactly once. Templates whose body is every
-//! sequence of up to 2 (3) items from a 17-form alphabet in three contexts, plus the same bodies
+//! sequence of up to 2 (3) items from a 20-form alphabet in three contexts, plus the same bodies
 //! as function-like and custom templates; findings obtained through the real parser, desugarer,
 //! lifter and pass (route B), compared with the statements the generator emitted and with an
 //! independent token scan.
@@ -11,7 +11,7 @@ use serde_json::{json, Value};
 use std::ops::Range;
 use std::path::Path;
 
-pub const FORMS: usize = 17;
+pub const FORMS: usize = 20;
 pub const CONTEXTS: usize = 3;
 
 #[derive(Clone, Debug)]
@@ -138,6 +138,20 @@ fn emit(text: &mut String, form: usize, ctx: usize, k: usize, items: &mut Vec<It
             item.arrows.push((call_start..end, 2, 2, "<anonymous>.a,<anonymous>.b".into()));
             item.more_tokens = 1;
             item.constraints.push((start..end, vec!["t2".into()]));
+        }
+        // Array elements whose index is a binary expression over the parameter: the secondary
+        // locations must distinguish `a[n + 1]` from `a[n - 1]`.
+        17 => {
+            let r = stmt(text, &format!("a[n + 1] <-- {e}"), false);
+            item.arrows.push((r, 1, 1, "a[n + 1]".into()));
+        }
+        18 => {
+            let r = stmt(text, &format!("a[n - 1] === {e}"), true);
+            item.constraints.push((r, vec!["a[n - 1]".into(), "in".into()]));
+        }
+        19 => {
+            let r = stmt(text, &format!("a[n + 1] === {e}"), true);
+            item.constraints.push((r, vec!["a[n + 1]".into(), "in".into()]));
         }
         _ => {
             let r = stmt(text, "s <-- in * in", false);
@@ -357,9 +371,9 @@ fn seq_of(mut code: u64, len: usize) -> Vec<(usize, usize)> {
 pub fn run(run: &Run) {
     let max_len = run.tier.pick(3usize, 4usize);
     run.set_rule(&format!(
-        "templates whose body is every sequence of 1..={max_len} items from 17 forms {{s <-- e, e --> s, a[0] <-- e, \
+        "templates whose body is every sequence of 1..={max_len} items from 20 forms {{s <-- e, e --> s, a[0] <-- e, \
          a[i] <-- e, c.in <-- e, cs[i].in <-- e, signal t <-- e, (s,t2) <-- (e,in), (s,_) <-- Sub2()(e), \
-         t2 <== Sub()(in <-- e), s <== e, s === e, a[0] === e, signal p <-- e, q <-- in, signal (p,q) <-- (e,in), t2 <== Mul2()(a <-- e, b <-- in), s <-- in*in}} x contexts {{top, inside if, \
+         t2 <== Sub()(in <-- e), s <== e, s === e, a[0] === e, signal p <-- e, q <-- in, signal (p,q) <-- (e,in), t2 <== Mul2()(a <-- e, b <-- in), a[n+1] <-- e, a[n-1] === e, a[n+1] === e, s <-- in*in}} x contexts {{top, inside if, \
          inside for}}, e alternating linear / cubic; plus every sequence of <= 2 items as parallel template and in a file with a main component, every \
          single item as custom template (with and without main), and a function; non-trivial = body with at least one `<--`"
     ));
